@@ -437,3 +437,28 @@ M('c09-endian-pad-before-reverse', 'C09', SUBF, "    if big_endian:\n        inp
 M('c02-order-dup', 'C02', 'cirbo/core/circuit/utils.py', "        if elem not in old_list_copy:\n            raise CircuitGateIsAbsentError()\n        new_list.append(elem)\n        old_list_copy.remove(elem)", "        if elem not in old_list:\n            raise CircuitGateIsAbsentError()\n        new_list.append(elem)\n        if elem in old_list_copy:\n            old_list_copy.remove(elem)", 'C02.ORDER')
 M('c02-order-tail-lost', 'C02', 'cirbo/core/circuit/utils.py', "    for elem in old_list_copy:\n        new_list.append(elem)\n\n    return new_list", "    for elem in old_list_copy[1:]:\n        new_list.append(elem)\n\n    return new_list", 'C02.ORDER')
 M('c02-order-inputs-direct', 'C02', CIRC, "        self._inputs = order_list(inputs, self._inputs)", "        self._inputs = order_list(inputs, self._inputs) if len(inputs) < len(self._inputs) else list(inputs)", 'C02.ORDER')
+
+# ---------------------------------------------------------------- rules added after the first seeded changes
+M('c03-stateless', 'C03', MUO, "        _new_circuit = Circuit()\n\n        # redirection links that will", "        _new_circuit = Circuit()\n        self._last_source = circuit\n        self._last_source.mark_as_output(circuit.inputs[0])\n\n        # redirection links that will", 'C03.PURE')
+M('c03-sym-set', 'C03', MDG, "                _operands = tuple(sorted(_operands))", "                _operands = tuple(sorted(set(_operands)))", 'C03.SYM')
+M('c05-parity-dedupe', 'C05', TSE, "    for signs in itertools.product((-1, 1), repeat=len(lits)):", "    lits = list(dict.fromkeys(lits))\n    for signs in itertools.product((-1, 1), repeat=len(lits)):", 'C05.TPL')
+M('c05-twin-and-dedupe', 'C05', TSE, "    common = [top_lit]\n    for lit in lits:\n        common.append(-lit)\n        cnf.append([lit, -top_lit])", "    common = [top_lit]\n    for lit in dict.fromkeys(lits):\n        common.append(-lit)\n        cnf.append([lit, -top_lit])", None)
+M('c04-outs-first-only', 'C04', SUBC, "                circuit._outputs = [\n                    new_output if x == output else x for x in circuit._outputs\n                ]", "                circuit._outputs[circuit.index_of_output(output)] = new_output", 'C04.OUTS')
+M('c07-fold-shift-concat', 'C07', SUMF, "            for i in range(n, shift):\n                d[i] = [zero]", "            for i in range(n, shift):\n                d[i] = [input_labels_b[0]]", 'C07.FOLD')
+M('c07-worklist', 'C07', SUMF, "    while len(single) > 1 or len(pairs) > 1:\n        lev_single, _ = single[0]\n        lev_pairs, _, _ = pairs[0]\n        now_level = min(lev_single, lev_pairs)\n        if now_level == inf:\n            break\n        now_singles = []\n        now_pairs = []\n        while single[0][0] == now_level:\n            now_singles.append(single[0][1])\n            single.discard(single[0])\n        while pairs[0][0] == now_level:\n            now_pairs.append((pairs[0][1], pairs[0][2]))\n            pairs.discard(pairs[0])\n\n        next_solo = []",
+  "    while len(single) > 1:\n        lev_single, _ = single[0]\n        lev_pairs, _, _ = pairs[0]\n        now_level = min(lev_single, lev_pairs)\n        if now_level == inf:\n            break\n        now_singles = []\n        now_pairs = []\n        while single[0][0] == now_level:\n            now_singles.append(single[0][1])\n            single.discard(single[0])\n        while pairs[0][0] == now_level:\n            now_pairs.append((pairs[0][1], pairs[0][2]))\n            pairs.discard(pairs[0])\n\n        next_solo = []", 'C07.WORKLIST')
+M('c08-karatsuba-shift', 'C08', MULF, "    res = add_sum_two_numbers_with_shift(circuit, mid, bd, res_mid)\n    final_res = add_sum_two_numbers_with_shift(circuit, 2 * mid, res, ac)\n\n    return reverse_if_big_endian(final_res[:out_size], big_endian)\n\n\ndef add_simple_karatsuba(", "    res = add_sum_two_numbers_with_shift(circuit, mid, bd, res_mid)\n    final_res = add_sum_two_numbers_with_shift(circuit, n, res, ac)\n\n    return reverse_if_big_endian(final_res[:out_size], big_endian)\n\n\ndef add_simple_karatsuba(", 'C08.KARATSUBA')
+M('c08-karatsuba-halves', 'C08', MULF, "    ac = add_simple_karatsuba(circuit, a, c)\n    bd = add_simple_karatsuba(circuit, b, d)", "    ac = add_simple_karatsuba(circuit, a, d)\n    bd = add_simple_karatsuba(circuit, b, c)", 'C08.KARATSUBA')
+M('c08-square-cross', 'C08', SQF, "    res = add_sum_two_numbers_with_shift(circuit, mid + 1, aa, ab)", "    res = add_sum_two_numbers_with_shift(circuit, mid, aa, ab)", 'C08.KARATSUBA')
+M('c09-fold-equal', 'C09', 'cirbo/synthesis/generation/arithmetics/equality.py', "    if len(bits) > len(input_labels):", "    if num > 2 ** len(input_labels):", 'C09.FOLD')
+M('c09-fold-plus-one-carry', 'C09', GENG, "                        (input_labels[i], carries[i - 1]),\n                    )\n                )\n            circuit.add_gate(\n                Gate(result_labels[i], gate.XOR, (input_labels[i], carries[i - 1]))", "                        (input_labels[i], carries[i - 1]),\n                    )\n                )\n            circuit.add_gate(\n                Gate(result_labels[i], gate.XOR, (input_labels[i], carries[0]))", 'C09.FOLD')
+M('c09-fold-sub-swap', 'C09', SUBF, "            res[i], bal[i] = add_sub2(circuit, [input_labels_a[i], bal[i - 1]])", "            res[i], bal[i] = add_sub2(circuit, [bal[i - 1], input_labels_a[i]])", 'C09.FOLD')
+M('c09-fold-set-outputs', 'C09', GENG, "        for result_label in result_labels:\n            circuit.mark_as_output(result_label)\n    return result_labels", "        circuit.set_outputs(result_labels)\n    return result_labels", 'C09.FOLD')
+M('c18-unary-parity', 'C18', MUO, "                _not_to_odd_parent[_gate.label] = _not_to_even_parent.get(_oper, _oper)", "                _not_to_odd_parent[_gate.label] = _oper", 'C18.UNARY')
+M('c18-unary-iff-chain', 'C18', MUO, "                _iff_to_parent[_gate.label] = _iff_to_parent.get(_oper, _oper)", "                _iff_to_parent[_gate.label] = _oper", 'C18.UNARY')
+M('c18-unary-remap-odd', 'C18', MUO, "                return _not_to_even_parent.get(gate_label, gate_label)", "                return _not_to_odd_parent.get(gate_label, gate_label)", 'C18.UNARY')
+M('c13-cached-generator', 'C13', GENG, "def generate_pairwise_xor(n: int) -> Circuit:", "import functools\n\n\n@functools.lru_cache(maxsize=64)\ndef generate_pairwise_xor(n: int) -> Circuit:", 'C13.WIRE')
+M('c19-inputs-via-remove', 'C19', CIRC, "                self._gates[input_label] = gate.Gate(input_label, new_type)\n                self._inputs.remove(input_label)", "                users = list(self.get_gate_users(input_label))\n                self._remove_gate(input_label)\n                self._emplace_gate(input_label, new_type)\n                self._gate_to_users[input_label] = users", 'C19.INPUTS')
+M('c02-restore-setdefault', 'C02', CIRC, "            if gate_label not in self._gate_to_users:\n                self._gate_to_users[gate_label] = list_users\n            else:\n                self._gate_to_users[gate_label].extend(list_users)", "            self._gate_to_users.setdefault(gate_label, list_users)", 'C02.IDX')
+M('c01-private-map', 'C01', CIRC, "        assignment_dict: dict[gate.Label, GateState] = dict(assignment)\n        for _input in self._inputs:\n            assignment_dict.setdefault(_input, Undefined)\n\n        queue_", "        assignment_dict: dict[gate.Label, GateState] = assignment\n        for _input in self._inputs:\n            assignment_dict.setdefault(_input, Undefined)\n\n        queue_", 'C01.APPLY')
+M('c01-stack-eval-early', 'C01', CIRC, "            if cur_gate.label == queue_[-1]:\n                assignment_dict[cur_gate.label] = cur_gate.operator(", "            if True:\n                assignment_dict[cur_gate.label] = cur_gate.operator(", 'C01.APPLY')
